@@ -418,6 +418,8 @@ STUB_RULES = [
     (r'_ZNSt6chrono3_V212system_clock3nowEv|_ZNSt6chrono3_V212steady_clock3nowEv', 'return (RET)yk_clock();'),
     (r'clock_gettime', 'return 0;'),
     (r'_ZNSt6locale.*|_ZSt9use_facet.*|_ZNKSt5ctypeIcE13_M_widen_initEv|_ZSt16__throw_bad_castv', 'yk_fault("locale"); RETZERO'),
+    (r'_ZNSt7__cxx1112basic_stringIcSt11char_traitsIcESaIcEE(12_M_constructEmc|14_M_replace_auxEmmmc|9_M_mutateEmmPKcm|10_M_replaceEmmPKcm|9_M_appendEPKcm|9_M_createERmm|9_M_assignERKS4_|7reserveEm)',
+     'yk_string_unmodelled(); RETZERO'),
     (r'yk_.*', None),
     (r'yakushima_verif_hook|yakushima_verif_event', None),
 ]
@@ -453,6 +455,7 @@ class Translator:
         t.cuts = [re.compile(c) for c in t.opts.get('cuts', [])]
         t.cut_hit = []
         t.yk_lines = {}
+        t.calls = {}
 
     def c(t, ty):
         return t.mod.c(ty)
@@ -645,6 +648,7 @@ class Translator:
         code = {}
         phis = {}
         cmpx = {}
+        origins = {}   # i8* SSA name -> (pointee Ty, typed C expr) for bitcasts from typed pointers / typed new
         flags = {}   # label -> set of 'sync' markers
         # typed operator new: look for "bitcast i8* %x to T*" of a new'ed value
         newty = {}
@@ -737,6 +741,8 @@ class Translator:
                     ty, v = t.typed_value(p)
                     p.expect('to')
                     to = p.type()
+                    if op == 'bitcast' and ty.k == 'ptr' and ty.to.k in ('named', 'struct', 'array') and to.k == 'ptr' and to.to.k == 'int':
+                        origins[dest] = (ty.to, v)
                     if op == 'sext':
                         e = t.cast_to(to, t.sgn(ty, v))
                     elif op in ('ptrtoint', 'inttoptr'):
@@ -924,10 +930,24 @@ class Translator:
                         if n.startswith('@llvm.lifetime') or n.startswith('@llvm.experimental.noalias') or n.startswith('@llvm.assume') \
                                 or n.startswith('@llvm.dbg') or n.startswith('@llvm.prefetch') or n.startswith('@llvm.invariant'):
                             continue
+                        def const_of(e):
+                            mm = re.fullmatch(r'\(\(uint\d+_t\)(\d+)ULL\)', e)
+                            return int(mm.group(1)) if mm else None
                         if n.startswith('@llvm.memcpy') or n.startswith('@llvm.memmove'):
+                            sz = const_of(cargs[2][1])
+                            od, os_ = origins.get(cargs[0][1]), origins.get(cargs[1][1])
+                            if sz is not None and od and os_ and t.c(od[0]) == t.c(os_[0]) and m.size_align(od[0])[0] == sz:
+                                # whole-object copy between typed pointers: typed struct assignment (keeps CBMC field-sensitive)
+                                st.append('*(%s) = *(%s);' % (od[1], os_[1]))
+                                continue
                             st.append('yk_%s(%s, %s, %s);' % ('memcpy' if 'memcpy' in n else 'memmove', cargs[0][1], cargs[1][1], cargs[2][1]))
                             continue
                         if n.startswith('@llvm.memset'):
+                            sz = const_of(cargs[2][1])
+                            od = origins.get(cargs[0][1])
+                            if sz is not None and od and const_of(cargs[1][1]) == 0 and m.size_align(od[0])[0] == sz:
+                                st.append('*(%s) = (%s){0};' % (od[1], t.c(od[0])))
+                                continue
                             st.append('yk_memset(%s, %s, %s);' % (cargs[0][1], cargs[1][1], cargs[2][1]))
                             continue
                         if n == '@llvm.x86.sse2.pause':
@@ -988,15 +1008,38 @@ class Translator:
                         al = cargs[1][1] if len(cargs) > 1 else '16'
                         decl[dest] = 'uint8_t*'
                         st.append('%s = (uint8_t*)malloc(sizeof(%s)); yk_new_typed(%s, sizeof(%s), %s);' % (dest, t.c(ty), dest, t.c(ty), al))
+                        origins[dest] = (ty, '((%s*)%s)' % (t.c(ty), dest))
                         continue
+                    if rn == '__dynamic_cast':
+                        # dynamic_cast to a class with a vtable in this module and no derived class (yakushima's node classes are
+                        # final): succeeds iff the object's vptr is that class's vtable address point.  Written so that CBMC can
+                        # constant-fold it (the generic type_info walk in rt.h reads the vtable through untyped pointers).
+                        mm = re.search(r'&g_(_ZTI\w+?)(_[0-9a-f]{8})?\)', cargs[2][1])
+                        tiname = None
+                        for g in m.globals:
+                            if g.startswith('@_ZTI') and ('&g_%s)' % san(g)) in cargs[2][1]:
+                                tiname = g
+                        vt = '@_ZTV' + tiname[5:] if tiname else None
+                        derived = tiname is not None and any(
+                            (gi[1] is not None and tiname in gi[1]) for gn, gi in m.globals.items() if gn.startswith('@_ZTI') and gn != tiname)
+                        if vt in m.globals and not derived:
+                            t.used.add(vt)
+                            decl[dest] = t.c(rty)
+                            o = cargs[0][1]
+                            vaddr = '((uint8_t**)(&(&(((%s*)(&g_%s)))->f0)->a[(int64_t)(((uint64_t)2ULL))]))' % (t.c(m.globals[vt][0]), san(vt))
+                            st.append('%s = ((%s) != 0 && *(uint8_t***)(%s) == %s) ? (%s) : (%s)0;' % (dest, o, o, vaddr, o, t.c(rty)))
+                            continue
                     if rn == 'yakushima_verif_hook':
                         kind = int(re.search(r'(\d+)ULL', cargs[0][1]).group(1))
                         if kind in (2, 3, 4):
                             flags[lab].add('sync')
+                        if kind in (0, 1) and not t.opts.get('all_hooks'):
+                            continue   # plain mode without watch counters: LOAD/STORE hooks carry no meaning for one thread
                         st.append(('hook', kind, cargs[1][1] if len(cargs) > 1 else '0'))
                         continue
                     if callee[0] == '@':
                         t.used.add(callee)
+                        t.calls.setdefault(name, set()).add(callee)
                         fn = 'f_' + san(callee)
                         # cast args to declared parameter types when the call type differs (varargs / bitcast callees)
                         e = '%s(%s)' % (fn, ', '.join(a[1] for a in cargs))
@@ -1039,16 +1082,29 @@ class Translator:
             back = pos[to] <= pos[frm]
             return '{ ' + ' '.join(s) + ' }', (to if back else None)
 
+        def cond_is_const_cmp(blk, cvar):
+            for st_ in code[blk]:
+                if isinstance(st_, str) and st_.startswith(cvar + ' = (uint8_t)('):
+                    if re.match(r'^v_\w+ = \(uint8_t\)\(\(uintptr_t\)v_\w+ (==|!=) \(uintptr_t\)v_\w+\);$', st_):
+                        return True   # pointer walk over an array: usually a fixed-size member array
+                    mm = re.match(r'^v_\w+ = \(uint8_t\)\((.*) (==|!=|<|>|<=|>=) (.*)\);$', st_)
+                    # one side is an SSA value, the other a constant expression (integer or address constant)
+                    return mm is not None and ((re.search(r'\bv_\w', mm.group(3)) is None) != (re.search(r'\bv_\w', mm.group(1)) is None))
+            return False
+
         def loop_kind(frm, to):
             # blocks between target and source in layout order approximate the loop body
             body = order[pos[to]:pos[frm] + 1]
             if any('sync' in flags[b] for b in body):
                 return 'sync'
-            # constant trip: a conditional exit comparing against a constant somewhere in header/latch
-            for b in (to, frm):
-                for s in code[b]:
-                    if isinstance(s, str) and re.search(r' = \(uint8_t\)\(.*(==|!=|<|>|<=|>=) \(\(uint\d+_t\)\d+ULL\)\);', s):
-                        return 'const'
+            # constant trip count: the loop's exit test (in the latch, else in the header) compares with a constant
+            for b in (frm, to):
+                for s_ in code[b]:
+                    if isinstance(s_, tuple) and s_[0] == 'cbr':
+                        tg = (s_[2], s_[3])
+                        leaves = any(pos[x] < pos[to] or pos[x] > pos[frm] for x in tg)
+                        if leaves and re.fullmatch(r'v_\w+', s_[1]) and cond_is_const_cmp(b, s_[1]):
+                            return 'const'
             return 'data'
         for lab in order:
             o.append(' B_%s: ;' % san(lab))
@@ -1281,7 +1337,20 @@ def translate(text, roots, opts=None):
             loops.append(dict(fn=cname, line=base + off + 1, kind=kind))
         out.extend(lines)
         out.append('')
-    info = dict(functions=sorted(raw(x) for x in done if x in mod.defs),
+    # recursive functions (cycles in the direct call graph): CBMC bounds them through the unwindset by function name
+    rec = set()
+    for f0 in t.calls:
+        seen, stack = set(), list(t.calls.get(f0, ()))
+        while stack:
+            g = stack.pop()
+            if g == f0:
+                rec.add(f0)
+                break
+            if g in seen:
+                continue
+            seen.add(g)
+            stack.extend(t.calls.get(g, ()))
+    info = dict(recursive=sorted('f_' + san(x) for x in rec), functions=sorted(raw(x) for x in done if x in mod.defs),
                 externals=sorted(raw(x) for x in done if x in mod.decls and x not in mod.defs),
                 missing=sorted(set(missing)), loops=loops, cuts=t.cut_hit,
                 ir_lines={raw(x): len(mod.defs[x]) for x in done if x in mod.defs})
